@@ -472,7 +472,7 @@ class Hypergraph:
         remove_node
 
         """
-        for n in nodes:
+        for n in list(nodes):  # `nodes` may be a live view of this hypergraph
             if n not in self:
                 warn(f"Node {n} not in hypergraph")
                 continue
@@ -1144,7 +1144,7 @@ class Hypergraph:
         remove_edge : remove a single edge.
 
         """
-        for idx in ebunch:
+        for idx in list(ebunch):  # `ebunch` may be a live view of this hypergraph
             for node in self._edge[idx].copy():
                 self._node[node].remove(idx)
             del self._edge[idx]
